@@ -8,6 +8,7 @@ import (
 	"fmt"
 	"go/token"
 	"go/types"
+	"math/bits"
 	"os"
 	"runtime"
 	"strings"
@@ -20,6 +21,9 @@ import (
 )
 
 const symxPath = "mvdan.cc/garble/internal/symx"
+
+// notHandled is returned by an external that declines a call: the real body runs.
+type notHandled struct{}
 
 type fnInfo struct {
 	name   string
@@ -111,6 +115,19 @@ func init() {
 		},
 		"crypto/internal/boring.Enabled": nil,
 
+		// --- asthelper literals with symbolic arguments
+		"mvdan.cc/garble/internal/asthelper.IntLit":    symLitExt(false),
+		"mvdan.cc/garble/internal/asthelper.UintLit":   symLitExt(false),
+		"mvdan.cc/garble/internal/asthelper.StringLit": symLitExt(true),
+		symxPath + ".ForkSmallTables": func(fr *frame, args []value) value {
+			fr.i.ex.forkSmallTables = args[0].(bool)
+			return nil
+		},
+		symxPath + ".DrawPolicy": func(fr *frame, args []value) value {
+			fr.i.ex.drawPolicy = args[0]
+			return nil
+		},
+
 		// --- math/rand
 		"(*math/rand.Rand).Int63":   randDraw("Int63", types.Int64, 63, false),
 		"(*math/rand.Rand).Uint32":  randDraw("Uint32", types.Uint32, 32, false),
@@ -123,7 +140,8 @@ func init() {
 		"(*math/rand.Rand).Intn":    randDrawN("Intn", types.Int, false),
 		"(*math/rand.Rand).Read":    randRead(false),
 		"(*math/rand.Rand).Float64": func(fr *frame, args []value) value { unmodelled("(*rand.Rand).Float64"); return nil },
-		"(*math/rand.Rand).Float32": func(fr *frame, args []value) value { unmodelled("(*rand.Rand).Float32"); return nil },
+		"(*math/rand.Rand).Float32": randFloat32,
+		"(*math/rand.Rand).Perm":    randPerm,
 		"(*math/rand.Rand).Seed":    func(fr *frame, args []value) value { return nil },
 		"math/rand.Int63":           randDraw("Int63", types.Int64, 63, true),
 		"math/rand.Uint32":          randDraw("Uint32", types.Uint32, 32, true),
@@ -538,14 +556,15 @@ func (ex *Exec) symLit(s value) (value, bool) {
 // text; the engine resolves symbolic literal markers.
 func symxIntOfLit(fr *frame, args []value) value {
 	if v, ok := fr.i.ex.symLit(args[0]); ok {
+		k, _ := kindOfValue(v)
 		switch v := v.(type) {
 		case sym:
-			return tuple{mk(fr.i.ex.ctx.Resize(v.t, 64, kindSigned(v.k)), types.Uint64), true}
+			return tuple{mk(fr.i.ex.ctx.Resize(v.t, 64, kindSigned(v.k)), types.Uint64), kindSigned(k), true}
 		default:
-			return tuple{uint64(asInt64(v)), true}
+			return tuple{uint64(asInt64(v)), kindSigned(k), true}
 		}
 	}
-	return tuple{uint64(0), false}
+	return tuple{uint64(0), false, false}
 }
 
 // symxBytesOfLit(text string) ([]byte, bool)
@@ -693,13 +712,106 @@ func randDrawN(method string, k types.BasicKind, global bool) externalFn {
 		if ex.branch(c.Cmp(smt.OSle, nt, c.Const(w, 0))) {
 			panic(targetPanic{iface{t: types.Typ[types.String], v: "invalid argument to " + method}})
 		}
-		v := ex.freshVar(drawPrefix(global)+method, w)
-		ex.assume(c.Cmp(smt.OUlt, v, nt))
-		if b, ok := ex.drawBounds[method]; ok {
-			ex.assume(c.Cmp(smt.OUlt, v, c.Const(w, uint64(b))))
+		var v *smt.Term
+		if !isSym(n) && asInt64(n) > 0 && asInt64(n) < 1<<31 {
+			// concrete bound: a variable just wide enough, zero-extended
+			nn := uint64(asInt64(n))
+			nw := uint8(bits.Len64(nn - 1))
+			if nw == 0 {
+				nw = 1
+			}
+			nv := ex.freshVar(drawPrefix(global)+method, nw)
+			if nn != uint64(1)<<nw {
+				ex.assume(c.Cmp(smt.OUlt, nv, c.Const(nw, nn)))
+			}
+			v = c.Zext(nv, w)
+		} else {
+			v = ex.freshVar(drawPrefix(global)+method, w)
+			ex.assume(c.Cmp(smt.OUlt, v, nt))
+		}
+		if ex.drawPolicy != nil && !global {
+			nn := -1
+			if !isSym(n) {
+				nn = int(asInt64(n))
+			}
+			pol := ex.drawPolicy
+			ex.drawPolicy = nil // the policy itself must not draw
+			b := call(fr.i, fr, token.NoPos, pol, []value{method, nn})
+			ex.drawPolicy = pol
+			if bb := asInt64(b); bb > 0 {
+				ex.assume(c.Cmp(smt.OUlt, v, c.Const(w, uint64(bb))))
+				ex.noteOnce(fmt.Sprintf("draw bound in force: %s(n) < %d for some call sites (harness DrawPolicy)", method, bb))
+			}
 		}
 		ex.recordDraw(method, global, nt, v)
 		return sym{v, k}
+	}
+}
+
+// randFloat32 explores the two extremes of [0,1): enough for code that only
+// compares the draw with a probability threshold strictly inside (0,1).
+func randFloat32(fr *frame, args []value) value {
+	ex := fr.i.ex
+	v := ex.freshVar("draw:Float32", 32)
+	ex.assume(ex.ctx.Cmp(smt.OUlt, v, ex.ctx.Const(32, 2)))
+	k := ex.concretize(v)
+	raw := ex.ctx.Const(32, 0)
+	res := float32(0)
+	if k == 1 {
+		raw = ex.ctx.Const(32, 1<<24-1)
+		res = float32(1<<24-1) / (1 << 24)
+	}
+	ex.recordDraw("Float32", false, nil, raw)
+	ex.noteOnce("(*rand.Rand).Float32 explored at its two extremes 0 and 1-2^-24 only")
+	return res
+}
+
+// randPerm returns n fresh pairwise distinct values in [0,n).
+func randPerm(fr *frame, args []value) value {
+	ex := fr.i.ex
+	c := ex.ctx
+	n := int(fr.i.concInt(args[1]))
+	out := make([]value, n)
+	var terms []*smt.Term
+	for k := 0; k < n; k++ {
+		v := ex.freshVar("draw:Perm", 64)
+		ex.assume(c.Cmp(smt.OUlt, v, c.Const(64, uint64(n))))
+		for _, p := range terms {
+			ex.assume(c.Not(c.Eq(v, p)))
+		}
+		terms = append(terms, v)
+		out[k] = mk(v, types.Int)
+	}
+	ex.recordDraw("Perm", false, c.Const(64, uint64(n)), terms...)
+	return out
+}
+
+// symLitExt intercepts asthelper.IntLit/UintLit/StringLit when the argument is
+// symbolic: the literal text becomes an opaque marker resolved by symx.IntOfLit
+// / symx.BytesOfLit. Concrete arguments take the real function.
+func symLitExt(isString bool) externalFn {
+	return func(fr *frame, args []value) value {
+		if !containsSymDeep(args[0]) {
+			return notHandled{}
+		}
+		kind := int(token.INT)
+		if isString {
+			kind = int(token.STRING)
+		}
+		// build the *ast.BasicLit by field name (the struct layout differs between Go versions)
+		pt := fr.fn.Signature.Results().At(0).Type().Underlying().(*types.Pointer)
+		st := pt.Elem().Underlying().(*types.Struct)
+		lit := zero(pt.Elem()).(structure)
+		for k := 0; k < st.NumFields(); k++ {
+			switch st.Field(k).Name() {
+			case "Kind":
+				lit[k] = kind
+			case "Value":
+				lit[k] = fr.i.ex.newSymLit(args[0])
+			}
+		}
+		var cell value = lit
+		return &cell
 	}
 }
 
